@@ -872,6 +872,21 @@ impl<'r, 'a, 'ast> Visit<'ast> for V<'r, 'a> {
                     format!("/*@CLS#{k}:BEGIN@*/{}/*@CLS#{k}:END@*/ {}", header, body, k = k),
                 );
             }
+            Expr::Try(t) => {
+                // R14: `E?` => explicit match (same error type: the `From` conversion is the identity); gives a
+                // hook for proof text on the early-exit path
+                self.r.rule("R14:try-desugaring");
+                let inner = self.r.render_expr(&t.expr);
+                let k = self.r.fresh();
+                self.replace(
+                    e.span(),
+                    format!(
+                        "(match {} {{ Ok(__t{k}) => __t{k}, Err(__x{k}) => {{ /*@M:try-err@*/ return Err(__x{k}); }} }})",
+                        inner,
+                        k = k
+                    ),
+                );
+            }
             Expr::Return(r) => {
                 if self.r.in_foreach == usize::MAX {
                     die("`return` inside a loop nested in a for_each closure");
@@ -1103,7 +1118,7 @@ fn renumber(text: &str) -> (String, usize, usize) {
         }
     }
     // other temporaries: numbered per family by order of first appearance
-    for fam in ["__out", "__r", "__p", "__n", "__m", "__k", "__v"] {
+    for fam in ["__out", "__r", "__p", "__n", "__m", "__k", "__v", "__t", "__x"] {
         let mut seen: Vec<String> = vec![];
         let bytes = out.as_bytes();
         let mut i = 0;
